@@ -9,10 +9,11 @@ use std::io::BufRead;
 use swift_mt_message::messages::MT103;
 use swift_mt_message::parser::SwiftParser;
 
-const B1: &str = "F01BANKBEBBAXXX0000000000";
+// every component carries a different value, so that swapped components are visible
+const B1: &str = "F01BANKBEBBAXXX1234567890";
 const B3_ORDER: &[(&str, &str)] = &[
     ("103", "EBA"), ("113", "NNNN"), ("108", "MUR1234567890123"), ("119", "STP"),
-    ("423", "24071912000012"), ("106", "240719BANKBEBBAXXX0000000000"), ("424", "RELREF123"),
+    ("423", "24071812345698"), ("106", "240717BANKBEBBAXXX1234567890"), ("424", "RELREF123"),
     ("111", "001"), ("121", "8a562c65-9a7e-4d8b-8f3a-2b1c5d6e7f80"), ("115", "ADDRESSEE INFO"),
     ("165", "ABC/RELEASE INFO"), ("433", "AOK/NO HIT"), ("434", "FPO/CONTROL INFO"),
 ];
@@ -26,9 +27,9 @@ fn b2_text(shape: &str) -> String {
     match shape {
         "I_P" => "I103BANKDEFFXXXXN".into(),
         "I_PM" => "I103BANKDEFFXXXXN2".into(),
-        "I_PMOOO" => "I103BANKDEFFXXXXN2020".into(),
-        "O_P" => "O1031200240719BANKBEBBAXXX00000000002407191201N".into(),
-        _ => "O1031200240719BANKBEBBAXXX00000000002407191201".into(),
+        "I_PMOOO" => "I103BANKDEFFXXXXN2015".into(),
+        "O_P" => "O1031158240718BANKBEBBAXXX43210987652407191301N".into(),
+        _ => "O1031158240718BANKBEBBAXXX43210987652407191301".into(),
     }
 }
 
@@ -55,15 +56,15 @@ fn build(case: &Value) -> Built {
     match fault {
         "b1_short" => b1 = Some(B1[..24].to_string()),
         "b1_long" => b1 = Some(format!("{}0", B1)),
-        "b1_letter_in_session" => b1 = Some("F01BANKBEBBAXXX00A0000000".into()),
+        "b1_letter_in_session" => b1 = Some("F01BANKBEBBAXXX12A4567890".into()),
         "b1_missing" => b1 = None,
         "b2_bad_direction" => b2 = b2.map(|s| format!("X{}", &s[1..])),
         "b2_I_short" => b2 = Some("I103BANKDEFFXXXX".into()),
         "b2_I_partial_obsolescence" => b2 = Some("I103BANKDEFFXXXXN202".into()),
         "b2_I_trailing" => b2 = Some("I103BANKDEFFXXXXN20209".into()),
         "b2_letter_in_type" => b2 = b2.map(|s| format!("{}1A3{}", &s[..1], &s[4..])),
-        "b2_O_short" => b2 = Some("O1031200240719BANKBEBBAXXX0000000000240719120".into()),
-        "b2_O_trailing" => b2 = Some("O1031200240719BANKBEBBAXXX00000000002407191201N9".into()),
+        "b2_O_short" => b2 = Some("O1031158240718BANKBEBBAXXX4321098765240719130".into()),
+        "b2_O_trailing" => b2 = Some("O1031158240718BANKBEBBAXXX43210987652407191301N9".into()),
         "b2_missing" => b2 = None,
         _ => {}
     }
